@@ -7,6 +7,7 @@
 #include <cstdio>
 #include <cmath>
 #include <climits>
+#include <cstdarg>
 
 namespace api {
 using ref::Int;
@@ -57,6 +58,13 @@ static inline void body_mpn_sqrtrem_via_limbs(Args& a, Res& r) { (void)r; size_t
 static inline void body_mpn_get_set_str_via_limbs(Args& a, Res& r) { (void)r; size_t n = zl(Z1); int b = 2 + (int)((unsigned)a.base % 255); std::vector<mp_limb_t> cp(mpz_limbs_read(Z1), mpz_limbs_read(Z1) + n); cp.push_back(0); std::vector<unsigned char> d(mpz_sizeinbase(Z1, b <= 62 ? b : 62) * 2 + 70); size_t nd = mpn_get_str(d.data(), b, cp.data(), (mp_size_t)n); RI(nd); size_t k0 = 0; while (k0 + 1 < nd && d[k0] == 0) k0++;
     mp_limb_t* rp = mpz_limbs_write(Z0, (mp_size_t)(n + 2)); mp_size_t rn = mpn_set_str(rp, d.data() + k0, nd - k0, b); mpz_limbs_finish(Z0, rn); }
 static inline void body_mpn_divrem_1_mod_1(Args& a, Res& r) { (void)r; size_t n = zl(Z1); mp_limb_t dv = U0 | 1; mp_limb_t* qp = mpz_limbs_write(Z0, (mp_size_t)n); mp_limb_t r1 = mpn_divrem_1(qp, 0, mpz_limbs_read(Z1), (mp_size_t)n, dv); mp_limb_t r2 = mpn_mod_1(mpz_limbs_read(Z1), (mp_size_t)n, dv); mpz_limbs_finish(Z0, (mp_size_t)n); RI(r1); RI(r1 == r2); }
+// va_list forms are reached through these variadic shims
+static inline int call_vasprintf(char** p, const char* fmt, ...) { va_list ap; va_start(ap, fmt); int n = gmp_vasprintf(p, fmt, ap); va_end(ap); return n; }
+static inline int call_vsnprintf(char* b, size_t n, const char* fmt, ...) { va_list ap; va_start(ap, fmt); int r = gmp_vsnprintf(b, n, fmt, ap); va_end(ap); return r; }
+static inline int call_vsprintf(char* b, const char* fmt, ...) { va_list ap; va_start(ap, fmt); int r = gmp_vsprintf(b, fmt, ap); va_end(ap); return r; }
+static inline int call_vfprintf(FILE* f, const char* fmt, ...) { va_list ap; va_start(ap, fmt); int r = gmp_vfprintf(f, fmt, ap); va_end(ap); return r; }
+static inline int call_vsscanf(const char* s, const char* fmt, ...) { va_list ap; va_start(ap, fmt); int r = gmp_vsscanf(s, fmt, ap); va_end(ap); return r; }
+static inline int call_vfscanf(FILE* f, const char* fmt, ...) { va_list ap; va_start(ap, fmt); int r = gmp_vfscanf(f, fmt, ap); va_end(ap); return r; }
 static const Op OPS[] = {
   // ---- mpz arithmetic ------------------------------------------------------------------------------------
   OPZ(mpz_add, "Z=ZZ", true, mpz_add(Z0, Z1, Z2), 0), OPZ(mpz_sub, "Z=ZZ", true, mpz_sub(Z0, Z1, Z2), 0),
@@ -184,6 +192,28 @@ static const Op OPS[] = {
   OPZ(mpn_divrem_1_mod_1, "Z=Z", znz(Z1) && a.z[0] != a.z[1], body_mpn_divrem_1_mod_1(a, r), 0),
   OPZ(gmp_asprintf_width, "=Z", true, { int w = asprintf_width(a); char* p = nullptr; int n = gmp_asprintf(&p, (a.base & 2) ? "%-*Zd" : "%*Zx", w, Z0); RI(n); r.sv.push_back(take_str(p)); }, F_STDIO),
   OPZ(mpf_rrandomb, "F=R", true, mpf_rrandomb(F0, a.r, (mp_size_t)(a.s[0] % 9), (mp_exp_t)(a.u[2] % 50)), F_RAND),
+  // ---- remaining documented entry points (fifth round): limb-count reallocation, intmax conversions, mpf init_set forms, the rest of the printf / scanf family
+  OPZ(_mpz_realloc, "Z=", true, { size_t n = zl(Z0); int sz0 = Z0->_mp_size; std::vector<mp_limb_t> old(Z0->_mp_d, Z0->_mp_d + n); size_t na = (size_t)(a.u[2] % 4 == 0 ? n : a.u[2] % 4 == 1 ? n + U0 % 5 : a.u[2] % 4 == 2 ? (n ? n - 1 : 0) : U0 % 40); _mpz_realloc(Z0, (mp_size_t)na);
+      /* documented: the value is preserved if it fits, or is set to 0 if not; never allocate zero space */ bool fits = n <= std::max<size_t>(na, 1);
+      if ((size_t)Z0->_mp_alloc != std::max<size_t>(na, 1)) r.sv.push_back("ILL-FORMED: _mpz_realloc did not record the requested allocation"); else if (fits ? (Z0->_mp_size != sz0 || memcmp(Z0->_mp_d, old.data(), n * 8) != 0) : Z0->_mp_size != 0) r.sv.push_back("ILL-FORMED: _mpz_realloc changed a value that fits, or kept one that does not"); }, 0),
+  OPZ(mpz_set_ux_sx, "Z=", true, { if (a.base & 1) mpz_set_ux(Z0, (uintmax_t)U0); else mpz_set_sx(Z0, (intmax_t)S0); }, 0),
+  OPZ(mpz_get_ux_sx, "=Z", true, { RI(mpz_get_ux(Z0)); RI(mpz_get_sx(Z0)); RI(mpz_fits_ui_p(Z0) != 0); RI(mpz_fits_si_p(Z0) != 0); }, 0),
+  OPZ(mpf_fits_ui_si_size, "=F", true, { RI(mpf_fits_ui_p(F0) != 0); RI(mpf_fits_si_p(F0) != 0); RI(mpf_size(F0)); }, 0),
+  OPZ(mpf_init_set, "F=F", a.f[0] != a.f[1], { mpf_clear(F0); mpf_init_set(F0, F1); }, 0), OPZ(mpf_init_set_ui, "F=", true, { mpf_clear(F0); mpf_init_set_ui(F0, U0); }, 0), OPZ(mpf_init_set_si, "F=", true, { mpf_clear(F0); mpf_init_set_si(F0, S0); }, 0),
+  OPZ(mpf_init_set_d, "F=", std::isfinite(a.d), { mpf_clear(F0); mpf_init_set_d(F0, a.d); }, 0),
+  OPZ(mpf_init_set_str, "F=", true, { mpf_clear(F0); int rc = mpf_init_set_str(F0, a.str.c_str(), (a.base & 64) ? -nbase(a) : nbase(a)); RI(rc); if (rc != 0) mpf_set_ui(F0, 0); }, 0),
+  OPZ(mpf_inits_clears, "F=", true, { mpf_clears(F0, (mpf_ptr)0); mpf_inits(F0, (mpf_ptr)0); mpf_set_si(F0, S0); }, 0),
+  OPZ(mpz_miller_rabin, "=ZR", CAP(Z0, 4) && Z0->_mp_size >= 0, RI(mpz_miller_rabin(Z0, 5, a.r) != 0), F_SLOW | F_RAND),
+  OPZ(gmp_urandom_ui, "Z=R", true, { mpir_ui m = U0 ? U0 : 1; mpir_ui x = gmp_urandomm_ui(a.r, m); mpir_ui y = gmp_urandomb_ui(a.r, 1 + bc(a, 64)); mpz_set_ui(Z0, x); mpz_mul_2exp(Z0, Z0, 64); mpz_add_ui(Z0, Z0, y); RI(x < m); }, F_RAND),
+  OPZ(gmp_sprintf_Z, "=Z", true, { int len = gmp_snprintf(nullptr, 0, "%Zd,%5d,%#Zo", Z0, (int)S0, Z0); RI(len); char* p = (char*)malloc((size_t)len + 1); int n = gmp_sprintf(p, "%Zd,%5d,%#Zo", Z0, (int)S0, Z0); RI(n); r.sv.push_back(std::string(p, strnlen(p, (size_t)len + 1))); free(p); }, F_STDIO),
+  OPZ(gmp_vsprintf_Q, "=Q", true, { int len = call_vsnprintf(nullptr, 0, "%Qd|%*Qx", Q0, (int)(a.u[2] % 70), Q0); RI(len); char* p = (char*)malloc((size_t)len + 1); int n = call_vsprintf(p, "%Qd|%*Qx", Q0, (int)(a.u[2] % 70), Q0); RI(n); r.sv.push_back(std::string(p, strnlen(p, (size_t)len + 1))); free(p); }, F_STDIO),
+  OPZ(gmp_fprintf_Z, "=Z", true, { char* m = nullptr; size_t ml = 0; FILE* fp = open_memstream(&m, &ml); RI(gmp_fprintf(fp, "%Zx %s %-*Zd|", Z0, "s", asprintf_width(a), Z0)); fclose(fp); r.sv.push_back(std::string(m, ml)); free(m); }, F_STDIO),
+  OPZ(gmp_vfprintf_F, "=F", true, { char* m = nullptr; size_t ml = 0; FILE* fp = open_memstream(&m, &ml); RI(call_vfprintf(fp, "%.*Fe %Fg", (int)(a.u[2] % 40), F0, F0)); fclose(fp); r.sv.push_back(std::string(m, ml)); free(m); }, F_STDIO),
+  OPZ(gmp_vasprintf_F, "=F", true, { char* p = nullptr; int n = call_vasprintf(&p, "%*.*Ff", (int)(a.u[2] % 300), (int)(a.u[1] % 20), F0); RI(n); r.sv.push_back(take_str(p)); }, F_STDIO),
+  OPZ(gmp_vsnprintf_F, "=F", true, { size_t sz = a.u[2] % 60; char* p = (char*)malloc(sz ? sz : 1); int n = call_vsnprintf(sz ? p : nullptr, sz, "[%Fe]", F0); RI(n); if (sz) r.sv.push_back(std::string(p, strnlen(p, sz))); free(p); }, F_STDIO),
+  OPZ(gmp_fscanf_Z, "Z=", true, { std::string s = a.str + " "; FILE* fp = fmemopen((void*)s.data(), s.size(), "r"); int n = gmp_fscanf(fp, " %Zd", Z0); fclose(fp); RI(n); if (n != 1) mpz_set_ui(Z0, 0); }, F_STDIO),
+  OPZ(gmp_vsscanf_Q, "Q=", true, { int n = call_vsscanf(a.str.c_str(), "%Qi", Q0); RI(n); if (n != 1 || mpz_sgn(mpq_denref(Q0)) == 0) mpq_set_ui(Q0, 0, 1); else mpq_canonicalize(Q0); }, F_STDIO),
+  OPZ(gmp_vfscanf_F, "F=", true, { std::string s = a.str + " "; FILE* fp = fmemopen((void*)s.data(), s.size(), "r"); int n = call_vfscanf(fp, "%Fg", F0); fclose(fp); RI(n); if (n != 1) mpf_set_ui(F0, 0); }, F_STDIO),
 };
 static const size_t NOPS = sizeof OPS / sizeof OPS[0];
 #undef Z0
